@@ -31,6 +31,7 @@ pub struct Proj {
     pub module_sources: HashMap<String, (String, LineNumbers)>,
     pub modules: Vec<TypedModule>,
     pub warnings: usize,
+    pub extras: Vec<(ModuleKind, aiken_lang::parser::extra::ModuleExtra)>,
 }
 
 #[derive(Debug, Clone)]
@@ -56,13 +57,15 @@ impl Proj {
             module_sources: HashMap::new(),
             modules: vec![],
             warnings: 0,
+            extras: vec![],
         }
     }
 
     /// Parse + type-check + register one module. `tracing` is what the type checker is given
     /// (it rewrites `?` and `expect` messages according to it).
     pub fn add_module(&mut self, name: &str, kind: ModuleKind, source: &str, tracing: Tracing) -> Result<usize, CompileError> {
-        let (mut ast, _extra) = parser::module(source, kind).map_err(|errs| CompileError::Parse(errs.iter().map(|e| format!("{e:?}")).collect::<Vec<_>>().join("; ").chars().take(600).collect()))?;
+        let (mut ast, extra) = parser::module(source, kind).map_err(|errs| CompileError::Parse(errs.iter().map(|e| format!("{e:?}")).collect::<Vec<_>>().join("; ").chars().take(600).collect()))?;
+        self.extras.push((kind, extra));
         ast.name = name.to_string();
         let mut warnings = vec![];
         let typed = ast
@@ -86,6 +89,16 @@ impl Proj {
             utils::indexmap::as_str_ref_values(&self.module_sources),
             tracing,
         )
+    }
+
+    /// The module as `aiken-project` sees it after type checking.
+    pub fn checked_module(&self, module: usize) -> aiken_project::module::CheckedModule {
+        let name = self.modules[module].name.clone();
+        let code = self.module_sources.get(&name).map(|s| s.0.clone()).unwrap_or_default();
+        let (kind, extra) = self.extras[module].clone();
+        let mut m = aiken_project::module::CheckedModule { kind, extra, name, code, package: "test/project".to_string(), input_path: std::path::PathBuf::new(), ast: self.modules[module].clone() };
+        m.attach_doc_and_module_comments();
+        m
     }
 
     pub fn function(&self, module: usize, name: &str) -> Option<&TypedFunction> {
